@@ -79,6 +79,7 @@ def wallet_history(job):
     reports = []        # outputs ever reported to the wallet: [txid, n, value, key_id, address]
     stored = []         # txids of stored (sent) transactions
     unsent = []         # WalletTransaction objects created but not broadcast
+    replace = []        # broadcast transactions signalling replace-by-fee, to be replaced
     spent_outpoints = []    # (txid, n, value) of outputs spent by transactions this wallet has sent
     fake = [0]
 
@@ -144,7 +145,9 @@ def wallet_history(job):
         nchange = rng.choice([1, 1, 0, 2, 3])
         total = sum(u['value'] for u in spendable)
         explicit = []
+        rbf = rng.random() < 0.3
         q = {'fee': fee if isinstance(fee, int) else -1, 'minconf': minconf, 'inkeys': inkeys, 'sweep': kind_ == 'sweep', 'explicit': explicit,
+             'above': -1,
              'feemin': net.fee_min if net.fee_min < 2000000 else 0, 'feemax': net.fee_max if net.fee_max < 2000000 else 0}
         t = None
         err = None
@@ -161,7 +164,7 @@ def wallet_history(job):
                     inkeys.append(k.id)
                 recips = [(to, amount)]
                 t = w.send_to(to, amount, input_key_id=inkeys[0] if inkeys else None, fee=fee, min_confirms=minconf,
-                              broadcast=broadcast, number_of_change_outputs=nchange)
+                              broadcast=broadcast, number_of_change_outputs=nchange, replace_by_fee=rbf)
             elif kind_ == 'send_inputs':
                 # explicit input list: some unspent outputs of the wallet, sometimes with an output the wallet has already
                 # spent or with the same outpoint twice (min_confirms is documented as ignored for explicit inputs)
@@ -187,7 +190,7 @@ def wallet_history(job):
                 recips = []
                 for i in range(n):
                     recips.append((rng.choice(EXT + ([rng.choice(keys).address] if keys else [])), rng.choice([700, 5000, 20000, 20000, 300000])))
-                t = w.send(recips, fee=fee, min_confirms=minconf, broadcast=broadcast, number_of_change_outputs=nchange)
+                t = w.send(recips, fee=fee, min_confirms=minconf, broadcast=broadcast, number_of_change_outputs=nchange, replace_by_fee=rbf)
             else:
                 if rng.random() < 0.5:
                     recips = [(EXT[0], 0)]
@@ -217,23 +220,62 @@ def wallet_history(job):
                 stored.append(t.txid)
                 spent_outpoints.extend((i.prev_txid.hex(), i.output_n_int, int(i.value)) for i in t.inputs)
                 ev['raw'] = t.raw_hex()
+                if rbf and kind_ in ('send_to', 'send') and rng.random() < 0.6:
+                    replace.append((t, recips))
             elif not broadcast and kind_ != 'sweep' and (rng.random() < 0.35 or force[0] == 'spend_most_unsent'):
                 unsent.append((t, recips))
             text += ' -> inputs %s outputs %s fee %s%s' % (ev['x']['ins'], ev['x']['outs'], ev['x']['fee'], ' PUSHED' if t.pushed else '')
         else:
             text += ' -> refused: %s' % err
         record(ev, text)
+        def bump_args(t):
+            # default formula, a new total fee, or an extra fee (small, moderate, larger than the change)
+            mode = rng.choice(['default', 'default', 'fee', 'extra'])
+            step = rng.choice([int(t.vsize or 200) + 1, 700, 5000, 60000])
+            if mode == 'fee':
+                return {'fee': int(t.fee) + step}, int(t.fee) + step
+            if mode == 'extra':
+                return {'extra_fee': step}, int(t.fee) + step
+            return {}, -1
         while unsent:               # bump the fee of the transaction just created (not broadcast): same request, new transaction
             t, recips = unsent.pop()
-            q2 = dict(q, fee=-1, feemin=0, feemax=0)
+            kw, want = bump_args(t)
+            q2 = dict(q, fee=want, feemin=0, feemax=0, explicit=[], above=int(t.fee))
             ev = {'op': 'tx', 'q': q2, 'created': False, 'stored': False, 'tnum': 0, 'kind': 'bumpfee', 'x': {'ins': [], 'outs': [], 'fee': 0, 'vsize': 0}}
             try:
-                t.bumpfee()
+                t.bumpfee(**kw)
                 ev['created'] = True
                 ev['x'] = txresult(t, recips)
-                text = 'bumpfee() of that transaction -> inputs %s outputs %s fee %s' % (ev['x']['ins'], ev['x']['outs'], ev['x']['fee'])
+                text = 'bumpfee(%s) of that transaction -> inputs %s outputs %s fee %s' % (kw, ev['x']['ins'], ev['x']['outs'], ev['x']['fee'])
             except (WalletError, TransactionError) as e:
-                text = 'bumpfee() refused: %r' % e
+                text = 'bumpfee(%s) refused: %r' % (kw, e)
+            record(ev, text)
+        while replace:              # replace-by-fee of the transaction just broadcast: the old one leaves the wallet, the new one is stored
+            t, recips = replace.pop()
+            kw, want = bump_args(t)
+            old_txid, old_tnum = t.txid, txnum(table, t.txid)
+            q2 = dict(q, fee=want, feemin=0, feemax=0, explicit=[], above=int(t.fee), minconf=0)
+            err = None
+            try:
+                t.bumpfee(broadcast=True, **kw)
+            except (WalletError, TransactionError) as e:
+                err = repr(e)[:120]
+            gone = w.transaction(old_txid) is None
+            if gone:
+                stored.remove(old_txid)
+                record({'op': 'delete', 'tnum': old_tnum}, 'bumpfee(%s, broadcast=True): transaction tx%d removed from the wallet' % (kw, old_tnum))
+            ev = {'op': 'tx', 'q': q2, 'created': False, 'stored': False, 'tnum': 0, 'kind': 'rbf', 'x': {'ins': [], 'outs': [], 'fee': 0, 'vsize': 0}}
+            if err is None and t.txid != old_txid:
+                ev['created'] = True
+                ev['x'] = txresult(t, recips)
+                if t.pushed:
+                    ev['stored'] = True
+                    ev['tnum'] = txnum(table, t.txid)
+                    stored.append(t.txid)
+                    ev['raw'] = t.raw_hex()
+                text = 'replacement -> inputs %s outputs %s fee %s%s' % (ev['x']['ins'], ev['x']['outs'], ev['x']['fee'], ' PUSHED' if t.pushed else '')
+            else:
+                text = 'replacement refused: %s' % err
             record(ev, text)
 
     # some histories follow a scenario (a lagging provider re-reporting outputs the wallet has spent; a fee bump of an
